@@ -73,7 +73,9 @@ def observe(res, model_sched=None):
     """takeovers observed directly from the probes after each step, and the first mismatch with the prediction."""
     results = res["results"]
     partial_owner = "dead" if res["start"] in ("dead_partial", "dead_partial_meta") else None
-    steals_obs = []      # (k, thief, what, owner)
+    steals_obs = []      # (k, thief, what, owner, root action of a recorded finding or None, point)
+    checked = {}         # contender -> what it saw at its last check point
+    entered = {}         # contender -> what it saw when it entered a cleanup function
     mismatch = None
     init_lock = {"none": ["absent", "noone"], "dead_lock": ["full", "dead"], "dead_lock_meta": ["full", "dead"],
                  "dead_partial": ["partial", "dead"], "dead_meta": ["absent", "noone"], "dead_partial_meta": ["partial", "dead"], "live_serving": ["full", "res"], "live_starting": ["full", "res"]}[res["start"]]
@@ -95,7 +97,26 @@ def observe(res, model_sched=None):
         # a file of another live owner that this step removed or replaced
         for what, before, after in (("lock", prev_lock, lock), ("meta", prev_meta, meta)):
             if before != after and before[0] != "absent" and before[1] not in ("dead", "noone", a):
-                steals_obs.append((k, a, what, before[1]))
+                # signature of the recorded check-then-rename findings: the thief's last check (stale: pid match on the lock /
+                # meta read; corrupt: lock present, meta absent) was made on the DEAD owner's file
+                seen = checked.get(a, {})
+                ent = entered.get(a, {})
+                root = None
+                if what == "lock" and seen.get("point") == "auth.stale.checked" and seen.get("lock", ["", ""])[1] == "dead":
+                    root = "StaleRename"          # passed the pid re-check on the dead lock, renamed another one
+                elif what == "lock" and ent.get("point") == "auth.corrupt.enter" and ent.get("lock", ["", ""]) == ["partial", "dead"]:
+                    root = "CorruptRename"        # decided on the dead half-written lock (the function re-checks existence only)
+                elif what == "meta" and seen.get("point") in ("auth.stale.metaread", "auth.stale.renamed", "auth.stale.checked") and seen.get("meta", ["", ""])[1] == "dead":
+                    root = "StaleMetaRename"
+                steals_obs.append((k, a, what, before[1], root, st["arrived"]))
+        if st["arrived"] in ("auth.stale.enter", "auth.corrupt.enter"):
+            entered[a] = {"point": st["arrived"], "lock": lock, "meta": meta}
+            checked.pop(a, None)
+        elif st["arrived"] in ("auth.stale.checked", "auth.stale.renamed", "auth.stale.metaread", "auth.corrupt.checked"):
+            checked[a] = {"point": st["arrived"], "lock": lock, "meta": meta}
+        elif st["arrived"] == "auth.loop.top":
+            checked.pop(a, None)
+            entered.pop(a, None)
         if not st["ok"] and mismatch is None and st["arrived"] == "finished" and "read_err=" in str((results.get(a) or {}).get("err", "")):
             # the contender's 2 s deadline expired while it was parked: outside the timing assumption of the forced schedules
             mismatch = "deadline"
@@ -122,25 +143,28 @@ def judge(v, c, res):
         nst_prev = st["nstolen"]
     steals_obs, mismatch = observe(res, m["sched"])
     # ---- verdicts
-    roots_pred = [t for t in m["stolen"] if t[3] in KEY]
-    known_keys = sorted({KEY[t[3]] for t in roots_pred})
-    for (k, a, what, owner) in steals_obs:
-        if pred_steal_at.get(k) and known_keys:
-            for kk in known_keys:
-                v.violation(f"{a} took the {what} file of live {owner} at step {k}", {"engine": "auth", "case": case_pub}, key=kk)
+    root_keys = []
+    for (k, a, what, owner, root, point) in steals_obs:
+        if root in KEY:
+            root_keys.append(KEY[root])
+            v.violation(f"{a} took the {what} file of live {owner} at step {k}", {"engine": "auth", "case": case_pub}, key=KEY[root])
+        elif root_keys and point in ("auth.meta.written", "auth.drop.meta", "auth.drop.lock", "auth.h.idle"):
+            # consequence of an earlier recorded takeover: the robbed contender still believes it holds the role
+            for kk in sorted(set(root_keys)):
+                v.violation(f"{a} overwrote / removed the {what} file of live {owner} after a recorded takeover", {"engine": "auth", "case": case_pub}, key=kk)
         else:
             v.violation(f"case {c['id']} (start {res['start']}): {a} removed / replaced the {what} file of the live owner {owner} at step {k} "
-                        f"({res['steps'][k]['to'] if k < len(res['steps']) else '?'}); the as-implemented model predicts no takeover there",
+                        f"(arrived at {point}); its last check was not made on the dead authority's file, so this is not one of the recorded check-then-rename findings",
                         {"engine": "auth", "case": case_pub, "observed": "steal", "step": k, "what": what})
     n_ok = len([p for p, r in results.items() if r and r.get("ok")])
     resident = 1 if res["start"] in ("live_serving", "live_starting") else 0
     if n_ok + resident > 1:
-        if not m["atmostone"] and known_keys and not res["broken"]:
-            for kk in known_keys:
+        if root_keys:
+            for kk in sorted(set(root_keys)):
                 v.violation("two guards alive at once", {"engine": "auth", "case": case_pub}, key=kk)
         else:
             v.violation(f"case {c['id']} (start {res['start']}): {n_ok} contenders hold the authority role at once"
-                        f"{' next to a live resident authority' if resident else ''}; results {results}",
+                        f"{' next to a live resident authority' if resident else ''} and no takeover of a live owner's file was observed before; results {results}",
                         {"engine": "auth", "case": case_pub, "observed": "two_authorities"})
     if not res["all_settled"]:
         v.violation(f"case {c['id']}: a contender never returned from acquire_authority_lock_with_recovery",
@@ -347,7 +371,7 @@ def replay(path, seed):
     bad = (obs == "two_authorities" and n_ok + resident > 1) or (obs == "unusable" and n_ok == 0) or (obs == "hang" and not res["all_settled"])
     if obs == "steal":
         steals, _ = observe(res)
-        bad = any(k == rep["case"].get("step") and what == rep["case"].get("what") for (k, a, what, owner) in steals)
+        bad = any(k == rep["case"].get("step") and what == rep["case"].get("what") for (k, a, what, owner, root, point) in steals)
     if bad:
         print(f"VIOLATION property={PROP} replay={path}")
         return 1
